@@ -250,8 +250,10 @@ def _pm(P, H, k, prune=True):
 def _pm_lists(case):
     """PartialMatcher end to end: the mappings without and with prune_auto (same construction otherwise)"""
     P, H = GG.to_nx(case["p"]), GG.to_nx(case["h"])
+    from synkit.Graph.Matcher.partial_matcher import PartialMatcher
     raw = _pm(P, H, 10, prune=False).get_mappings()
-    kept = _pm(P, H, 10, prune=True).get_mappings()
+    # the pruned list through the stateless facade (it forwards every option to the constructor)
+    kept = PartialMatcher.find_partial_mappings(H, P, node_attrs=["element", "charge"], edge_attrs=["order"], prune_auto=True, wl_max_iter=10)
     return raw, kept
 
 
